@@ -155,6 +155,85 @@ def build(geom, nprng, bond=2, dtype="complex128", re=2, im=1):
                                          sites=list(range(g.n)))
 
 
+def build_graded(geom, nprng, K, dtype="complex128"):
+    """An open chain (MPS or MPO) with a *graded* Schmidt spectrum and exact integer data:
+           K * (product state A)  +  (entangled bond-2 state B),      K ~ 1e6,
+    so that every bond carries one Schmidt coefficient ~ K|A| and small but non-zero ones ~ |B| (squared relative
+    weight ~ 1e-12: below any default truncation threshold, far above rounding).  A's local vectors have entries in
+    {0, +-1, +-i}; for operators A's local matrices are rank one |u><w|.  Returns (network, locals) where
+    locals[i] is the local vector a_i (states) or the pair (u_i, w_i) (operators)."""
+    import quimb.tensor as qtn
+
+    real = np.dtype(dtype).kind != "c"
+    n = geom.n
+    units = [1, -1] if real else [1, -1, 1j, -1j]
+
+    def unitvec(d):
+        v = np.array([units[nprng.integers(0, len(units))] if nprng.random() < 0.75 else 0 for _ in range(d)], dtype=complex)
+        if not np.any(v):
+            v[nprng.integers(0, d)] = 1
+        return v
+
+    op = geom.kind == "op"
+    locs, arrays = [], []
+    ksite = int(nprng.integers(0, n))
+    for i, d in enumerate(geom.dims):
+        if op:
+            u, w = unitvec(d), unitvec(d)
+            locs.append((u, w))
+            a = np.outer(u, w.conj())
+            pshape = [d, d]
+        else:
+            a = unitvec(d)
+            locs.append(a)
+            pshape = [d]
+        if i == ksite:
+            a = a * K
+        lb = 1 if i == 0 else 3
+        rb = 1 if i == n - 1 else 3
+        arr = np.zeros([lb, rb] + pshape, dtype=complex)
+        arr[0, 0] = a
+        bl = 1 if i == 0 else 2
+        br = 1 if i == n - 1 else 2
+        B = gint(nprng, [bl, br] + pshape, 1, 1, real=real)
+        arr[lb - bl:, rb - br:] = B if (i not in (0, n - 1) or n == 1) else 0
+        if i == 0 and n > 1:
+            arr = np.zeros([1, 3] + pshape, dtype=complex)
+            arr[0, 0] = a
+            arr[0, 1:] = B[0]
+        elif i == n - 1 and n > 1:
+            arr = np.zeros([3, 1] + pshape, dtype=complex)
+            arr[0, 0] = a
+            arr[1:, 0] = B[:, 0]
+        if i == 0:
+            arr = arr[0]
+        elif i == n - 1:
+            arr = arr[:, 0]
+        arrays.append(arr.real.astype(dtype) if real else arr.astype(dtype))
+    if op:
+        return qtn.MatrixProductOperator(arrays, shape="lrud"), locs
+    return qtn.MatrixProductState(arrays, shape="lrp"), locs
+
+
+def kill_gate(geom, locs, pos):
+    """n.1 - |a><a| on the positions `pos` (a = the dominant branch's local vector there, n = <a|a>): a Gaussian
+    integer projector (times n) that removes the dominant product branch completely"""
+    a = np.ones(1, dtype=complex)
+    for p in pos:
+        v = locs[p][0] if geom.kind == "op" else locs[p]
+        a = np.kron(a, v)
+    nn = int(round(np.vdot(a, a).real))
+    return nn * np.eye(len(a), dtype=complex) - np.outer(a, a.conj())
+
+
+def swap_matrix(d):
+    G = np.zeros((d * d, d * d), dtype=complex)
+    for x in range(d):
+        for y in range(d):
+            G[x * d + y, y * d + x] = 1
+    return G
+
+
 def site_key(geom, p):
     """position (0-based) -> quimb's site key"""
     return geom.sites[p]
@@ -414,6 +493,16 @@ def apply_entry(tn, geom, a, gauges=None):
         out = fn(Gin, where, **kw, **copts)
         return tn if inplace else out
 
+    if entry == "swap_sites":
+        # exchanging two sites of equal size = the SWAP gate on them (G is the SWAP matrix; the driver sees to that)
+        i, j = keys
+        if a.get("variant") == "swap_site_to" and abs(i - j) == 1:
+            fn = tn.swap_site_to_ if inplace else tn.swap_site_to
+        else:
+            fn = tn.swap_sites_with_compress_ if inplace else tn.swap_sites_with_compress
+        out = fn(i, j, **copts)
+        return tn if inplace else out
+
     if entry == "gate_sandwich_with_auto_swap":
         fn = tn.gate_sandwich_with_auto_swap_ if inplace else tn.gate_sandwich_with_auto_swap
         kw = {"dagger": True} if op == "H" else {}
@@ -484,5 +573,5 @@ ENTRY_OPS = {
     "gate": "NTH", "gate_upper": "NTH", "gate_lower": "NTH", "gate_sandwich": "NTH", "gate_inds": "NTH",
     "gate_inds_with_tn": "NTH", "Tensor.gate": "NTH", "gate_split": "NTH", "gate_with_auto_swap": "N",
     "gate_sandwich_with_auto_swap": "NH", "gate_nonlocal": "NT", "gate_with_submpo": "NT", "gate_with_mpo": "NT",
-    "op_lazy": "NT", "gate_simple": "NTH",
+    "op_lazy": "NT", "gate_simple": "NTH", "swap_sites": "N",
 }
